@@ -394,3 +394,6 @@ MUTANTS = [
     Mutant("use-hints-no-filter", MGR, "        hint_objs = filter(lambda h: h,  # ignore None, unrecognizable\n                           [parse_hint(hs) for hs in hint_message[\"hints\"]])", "        hint_objs = [parse_hint(hs) for hs in hint_message[\"hints\"]]", "C20.R2"),
 ]
 REWRITES = []
+
+MUTANTS.append(Mutant("lonely-hints-row-misplaced", MGR, "    LONELY.upon(rx_HINTS, enter=LONELY, outputs=[])  # stale, ignore", "    STOPPED.upon(rx_HINTS, enter=STOPPED, outputs=[])  # stale, ignore", "C20.R5"))
+MUTANTS.append(Mutant("advertise-collected-relays", TR, "        for relay in self._transit_relays:\n            rhint = {\"type\": \"relay-v1\", \"hints\": []}", "        for relay in self._our_relay_hints:\n            rhint = {\"type\": \"relay-v1\", \"hints\": []}", "C20.R6"))
